@@ -11,3 +11,4 @@ import AmVerif.Props.C05
 import AmVerif.Props.C17
 import AmVerif.Props.C08
 import AmVerif.Props.C15
+import AmVerif.Props.C09
